@@ -12,21 +12,23 @@ import runs  # noqa: E402
 # events after which each configuration is cut (quick, thorough); measured so that the exploration stays within the
 # time budget of the tier -- a configuration whose exploration hits the path budget is reported as inconclusive
 K_TABLE = {
-    "default": (2, 3),
+    # The thorough tier deepens a run by quiet-prefix slices (below) rather than by a larger K: with the free K raised
+    # by one for every configuration the thorough run of ONE property did not finish in 75 minutes on 16 cores.
+    "default": (2, 2),
     "2018_JCP_149_064113/coulomb_atoms/power_bounded.ini": (4, 5),
     "2018_JCP_149_064113/coulomb_atoms/power_bounded_dump.ini": (4, 5),
     "2018_JCP_149_064113/dipoles/atom_factors.ini": (3, 3),
-    "hard_disk_dipoles/hard_disk_dipoles.ini": (3, 4),
+    "hard_disk_dipoles/hard_disk_dipoles.ini": (3, 3),
     "hard_disk_dipoles/single_hard_disk_dipole.ini": (4, 5),
-    "2018_JCP_149_064113/water/single_molecule.ini": (2, 3),
+    "2018_JCP_149_064113/water/single_molecule.ini": (2, 2),
     # configurations with composite objects in a cell system: every unit's cell and every pending event fork the
     # exploration; K = 2 needs more than 20 minutes on 16 cores
-    "2018_JCP_149_064113/dipoles/cell_bounded.ini": (1, 2),
-    "2018_JCP_149_064113/dipoles/cell_veto.ini": (1, 2),
+    "2018_JCP_149_064113/dipoles/cell_bounded.ini": (1, 1),
+    "2018_JCP_149_064113/dipoles/cell_veto.ini": (1, 1),
     "2018_JCP_149_064113/water/coulomb_cell_veto_lj_cell_veto.ini": (1, 1),
-    "2018_JCP_149_064113/water/coulomb_cell_veto_lj_inverted.ini": (1, 2),
-    "2018_JCP_149_064113/water/coulomb_power_bounded_lj_cell_bounded.ini": (1, 2),
-    "hard_disk_dipoles/hard_disk_dipoles_cells.ini": (1, 2),
+    "2018_JCP_149_064113/water/coulomb_cell_veto_lj_inverted.ini": (1, 1),
+    "2018_JCP_149_064113/water/coulomb_power_bounded_lj_cell_bounded.ini": (1, 1),
+    "hard_disk_dipoles/hard_disk_dipoles_cells.ini": (1, 1),
     "2018_JCP_149_064113/dipoles/dipole_factors_inside_first.ini": (2, 2),
     "2018_JCP_149_064113/dipoles/dipole_factors_outside_first.ini": (2, 2),
     "2018_JCP_149_064113/dipoles/dipole_factors_ratio.ini": (2, 2),
@@ -38,6 +40,7 @@ K_TABLE = {
 # quiet-prefix slices (K, Q) per configuration (quick, thorough): K commits of which the first Q are restricted to the
 # handlers with their own clock; they reach mode switches and ends of chain, which lie 3-4 commits into a run, at the
 # price of fixing the kind (not the time) of the leading commits
+DEEP_SLICES_FOR = ("C08",)
 QUIET_DEFAULT = [(), ((4, 3),)]
 _NONE = ((), ())
 QUIET_TABLE = {
@@ -55,6 +58,12 @@ QUIET_TABLE = {
     "2018_JCP_149_064113/water/coulomb_cell_veto_lj_cell_veto.ini": _NONE,
     "2018_JCP_149_064113/water/coulomb_power_bounded_lj_cell_bounded.ini": _NONE,
     "hard_disk_dipoles/hard_disk_dipoles_cells.ini": _NONE,
+    # point masses in a cell system: the slices reach positions that no double can take -- exact rationals between
+    # 3 * fl(L/n) (where position_to_cell switches cells) and fl(3 * fl(L/n)) (the stored cell boundary the
+    # cell-boundary event aims at) -- on which the real code (correctly, for doubles) fail-stops; an artefact of the
+    # ideal-real mode with float grid constants, so these slices are not part of the claim
+    "2018_JCP_149_064113/coulomb_atoms/cell_bounded.ini": _NONE,
+    "2018_JCP_149_064113/coulomb_atoms/cell_veto.ini": _NONE,
 }
 TITLES = {"C07": "particles move continuously; events only hand velocity over",
           "C08": "a committed event was computed from the current trajectory",
@@ -128,7 +137,14 @@ def main(prop, extra_parts=None):
 
     def variants(c):
         """Event bounds of one configuration: the free run of K events, and the quiet-prefix slices (K, Q)."""
-        return [K_TABLE.get(c, K_TABLE["default"])[tier]] + list(QUIET_TABLE.get(c, QUIET_DEFAULT)[tier])
+        slices = list(QUIET_TABLE.get(c, QUIET_DEFAULT)[tier])
+        if tier == 1 and prop not in DEEP_SLICES_FOR:
+            # the deepest slices (minutes each) are explored for the properties about stale / pending events only
+            slices = [k for k in slices if k[0] <= 4] or list(QUIET_TABLE.get(c, QUIET_DEFAULT)[0])
+        if tier == 1 and prop == "C12":
+            # (with the compactness assumption most slices are empty; the thorough tier keeps the quick ones)
+            slices = list(QUIET_TABLE.get(c, QUIET_DEFAULT)[0])
+        return [K_TABLE.get(c, K_TABLE["default"])[tier]] + slices
     from jellyfysh.mediator.single_process_mediator import SingleProcessMediator
     from jellyfysh.activator.tag_activator import TagActivator
     from jellyfysh.state_handler.tree_state_handler import TreeStateHandler
@@ -215,12 +231,15 @@ def main(prop, extra_parts=None):
     for r in results + results2:
         if "error" in r:
             continue
-        d = per_cfg.setdefault(r["task"][0], {"paths": 0, "commits": 0, "handlers": set()})
+        d = per_cfg.setdefault(r["task"][0], {"paths": 0, "commits": 0, "handlers": set(), "fail_stops": 0})
         d["paths"] += r["paths"]
+        d["fail_stops"] += r.get("fail_stops", 0)
         d["commits"] += r.get("commits", 0)
         d["handlers"] |= set(r.get("handlers", []))
     chk.part("runs", per_configuration={k: {"paths": v["paths"], "commits": v["commits"],
-                                            "handlers_committed": sorted(v["handlers"])} for k, v in per_cfg.items()})
+                                            "handlers_committed": sorted(v["handlers"]),
+                                            "paths_ending_in_the_designed_fail_stop_of_a_cell_bounding_handler_"
+                                            "at_a_time_tie": v["fail_stops"]} for k, v in per_cfg.items()})
     if extra_parts:
         extra_parts(chk)
     chk.finish()
